@@ -1,7 +1,7 @@
 (* C10 -- statements only; see DESIGN.md section 6 C10.  Theorems are added as the proofs land;
    the witnesses below are evaluated in the kernel on the whole-parser model. *)
 From Coq Require Import String.
-From MdIt Require Import Prims Tables Tree Render Core Dump Dispatch.
+From MdIt Require Import Prims Tables Ruler Tree Render Core Dump Dispatch LineProofs.
 Local Open Scope string_scope.
 Local Open Scope list_scope.
 (* string append for building inputs *)
@@ -21,3 +21,41 @@ Example C10_witness_crlf :
   html_of "CsW" ("a" +s+ cr +s+ lf +s+ "b") = html_of "CsW" ("a" +s+ lf +s+ "b") /\
   html_of "CsW" ("```" +s+ cr +s+ "x") = html_of "CsW" ("```" +s+ lf +s+ "x" +s+ lf).
 Proof. vm_compute. split; reflexivity. Qed.
+
+(* In the model the block parser receives the list of line texts and nothing else (positions are
+   symbolic: line index + offset in the line); only the source-position rule reads the source again.
+
+   the line texts do not depend on the line-ending convention nor on one final line ending *)
+Theorem C10_lines_crlf : forall s, cr_free s = true -> texts_of (to_crlf s) = texts_of s.
+Proof. exact texts_of_crlf. Qed.
+Theorem C10_lines_cr : forall s, cr_free s = true -> texts_of (to_cr s) = texts_of s.
+Proof. exact texts_of_cr. Qed.
+Theorem C10_lines_final_lf : forall s, ends_with_eol s = false -> texts_of (s ++ [10]) = texts_of s.
+Proof. exact texts_of_final_lf. Qed.
+
+(* whole parser, any configuration whose core chain lacks the source-position rule, any fuel:
+   two sources with the same line texts give the same HTML / XHTML (same error, if any) *)
+Theorem C10_parse_depends_on_lines : forall fuel m xhtml s1 s2,
+  no_sourcepos m -> texts_of s1 = texts_of s2 -> html_of_parse fuel m xhtml s1 = html_of_parse fuel m xhtml s2.
+Proof. exact parse_depends_on_texts. Qed.
+
+(* the property: LF -> CRLF, LF -> CR, appended final line ending *)
+Theorem C10_crlf : forall fuel m xhtml s, no_sourcepos m -> cr_free s = true ->
+  html_of_parse fuel m xhtml (to_crlf s) = html_of_parse fuel m xhtml s.
+Proof. exact html_crlf. Qed.
+Theorem C10_cr : forall fuel m xhtml s, no_sourcepos m -> cr_free s = true ->
+  html_of_parse fuel m xhtml (to_cr s) = html_of_parse fuel m xhtml s.
+Proof. exact html_cr. Qed.
+Theorem C10_final_newline : forall fuel m xhtml s, no_sourcepos m -> ends_with_eol s = false ->
+  html_of_parse fuel m xhtml (s ++ [10]) = html_of_parse fuel m xhtml s.
+Proof. exact html_final_lf. Qed.
+
+(* the shipped plugin set (CommonMark + strikethrough + raw HTML) has no source-position rule; with
+   that rule the statement is about line:column attributes and is NOT proved (checked by the oracle) *)
+Example C10_nonvacuous : no_sourcepos (build_md (bs "CsW") 100) /\ cr_free (bs "a") = true.
+Proof. split; [vm_compute; repeat constructor; discriminate|reflexivity]. Qed.
+
+Print Assumptions C10_parse_depends_on_lines.
+Print Assumptions C10_crlf.
+Print Assumptions C10_cr.
+Print Assumptions C10_final_newline.
